@@ -271,7 +271,7 @@ def r_optmap(body, result=False):
             clos = parts[-1].strip()
             if not clos.startswith("|"):
                 continue   # not a closure literal (e.g. .map(Self)) -> leave to the verifier
-            if kind == "map_err":
+            if kind == "map_err" and not result:
                 continue
             mo = (x, close, kind, parts, clos)
             break
@@ -288,6 +288,8 @@ def r_optmap(body, result=False):
             new = "(match %s { Ok(%s) => Ok(%s), Err(e_) => Err(e_) })" % (recv, pat, cbody)
         elif result and kind == "and_then":
             new = "(match %s { Ok(%s) => %s, Err(e_) => Err(e_) })" % (recv, pat, cbody)
+        elif result and kind == "map_err":
+            new = "(match %s { Ok(v_) => Ok(v_), Err(%s) => Err(%s) })" % (recv, pat if pat else "_", cbody)
         elif result:
             raise Unsupported("R-optmap(result): %s not handled" % kind)
         elif kind == "map":
@@ -844,16 +846,16 @@ def emit_fn(f, udir, unit_props, recs, log_global):
         log += l
         body, l = insert_hints(body, f.get("hint", []), where)
         log += l
+        if f.get("tail"):
+            # wrap: evaluate the original block, then the ghost tail, then yield the value
+            body = "{ let r_tail_ = %s; proof { %s } r_tail_ }" % (body, f["tail"].strip())
+            log.append(("ghost-tail", "", norm_ws(f["tail"])[:160]))
         if f.get("head"):
             body = "{ proof { %s }\n" % f["head"].strip() + body[1:]
             log.append(("ghost-head", "", norm_ws(f["head"])[:160]))
         if f.get("head_raw"):
             body = "{ %s\n" % f["head_raw"].strip() + body[1:]
             log.append(("ghost-head", "", norm_ws(f["head_raw"])[:160]))
-        if f.get("tail"):
-            # wrap: evaluate the original block, then the ghost tail, then yield the value
-            body = "{ let r_tail_ = %s; proof { %s } r_tail_ }" % (body, f["tail"].strip())
-            log.append(("ghost-tail", "", norm_ws(f["tail"])[:160]))
         attrs = ""
         if f.get("rlimit"):
             attrs += "#[verifier::rlimit(%s)]\n" % f["rlimit"]
